@@ -290,8 +290,9 @@ def after(words, key, k):
 
 
 @harness("C17",
-         params={"size": Obj("pdb2pqr.psize:Psize", ngrid=ListOf(Int, 3), coarse_length=ListOf(Real, 3),
-                             fine_length=ListOf(Real, 3), proc_grid=ListOf(Real, 3), gmemceil=Real)},
+         # (the whole Psize state is there to be read: a rendering that recomputes a box from other fields is judged,
+         #  not undecided)
+         params={"size": PSIZE()},
          requires=["forall(range(3), lambda i: size.ngrid[i] >= 33 and size.ngrid[i] < 100000)",
                    "forall(range(3), lambda i: size.coarse_length[i] > 0 and size.fine_length[i] > 0)"],
          ensures=[
